@@ -29,6 +29,7 @@ RULE = (
     "reply bytes as received (NULL without reply), exception repr or NULL, request_time <= response_time, state = a reference ECU-state "
     "tracker's view before the request, log_mode implicit/emphasized, no 'Could not log messages to database' warning; the exchange in flight "
     "at cancellation has its row too (request bytes, reply NULL). Outcomes also include failures that are no UDS exception: a refused reconnect of a retry, a "
+    "Further case kinds: backlog (2 500+ fast exchanges, cancelled right after a reply), helpers (transmit_data, set_session through stored transitions), further tags next to ANALYZE, objects scrambled by the caller after the request. "
     "non-connection OSError from the transport, an ECU stuck in ResponsePending (RuntimeError). Non-trivial: >= 1 non-positive outcome and >= 1 state change. Distinct by history."
 )
 ASSUMPTIONS = [
